@@ -68,7 +68,13 @@ func (s *side) onPacket(packets ...*eioparser.Packet) {
 
 func msg(n int) *eioparser.Packet {
 	bin := n%3 == 0
-	data := []byte(fmt.Sprintf("%d:%s", n, strings.Repeat("p", n%40)))
+	size := n % 40
+	if n%97 == 0 {
+		// now and then a message well above 32 KiB (the default read limit of the websocket library):
+		// the upgraded transport must carry what the first one carried
+		size = 33000 + (n%5)*20000
+	}
+	data := []byte(fmt.Sprintf("%d:%s", n, strings.Repeat("p", size)))
 	p, _ := eioparser.NewPacket(eioparser.PacketTypeMessage, bin, data)
 	return p
 }
@@ -399,7 +405,7 @@ func runTrial(run *vk.Run, t trial) (out outcome) {
 func main() {
 	run := vk.Start("C07", "fault_enumeration")
 	run.Rule("trials = traffic pattern {full speed, jitter, bursts released when the websocket connection appears} x upgrade fault {none, slowed (traffic flows through the swap), refused, stalled (timeouts 1 s), " +
-		"cut at every 8th byte of the websocket byte stream in each direction}; numbered text and binary messages in both directions from before the attempt until after it; " +
+		"cut at every 8th byte of the websocket byte stream in each direction}; numbered text and binary messages (every 97th one 33..113 KB) in both directions from before the attempt until after it; " +
 		"distinct = (pattern, fault, client swapped?, connection alive/died)")
 	run.Assume("order across the swap is not demanded (C02 covers settled transports)", "a cut after the client swapped legitimately kills the connection: then only at-most-once and close-once are required",
 		"polling->WebTransport (QUIC) is not exercised here; the WebTransport framer is covered by C11")
